@@ -13,314 +13,30 @@ import (
 
 func init() {
 	register(&propDef{
-		id: "C27", run: runC27, minOblig: 110,
-		explanation: "Decides RFC-shape necessary conditions of OpenSSH interoperability that Go-to-Go tests cannot see because both sides share the code: (exchange hash) for each of the five key-exchange families and both roles, the ordered hash input and the provenance/encoding of every value (see C29); (key derivation) generateKeyMaterial hashes K, H, then tag and session id on the first block and the digests so far on later blocks, in that order; enterKeyExchange stores the session identifier of the FIRST exchange (handshakeTransport.sessionID, assigned only while nil) into every kexResult, not the current H; (direction tags) clientKeys = A,C,E and serverKeys = B,D,F in (iv, key, mac) order, newPacketCipher derives the IV with ivTag, the key with keyTag, the MAC key with macKeyTag and sizes each from the table entry it instantiates, newTransport gives a client reader=serverKeys/writer=clientKeys and a server the opposite; (tables) every advertised kex/cipher/MAC name has a table entry, cipherModes key/IV sizes and macModes key sizes, EtM flags, hash functions and truncation equal the RFC 4253/4344/5647/6668 and OpenSSH PROTOCOL values, kexAlgoMap binds each name to the implementation, hash and curve/group the name prescribes, ecHash maps curve sizes to SHA-256/384/512; (host key signature) the server signs H with underlyingAlgo(negotiated algorithm). NOT decided: actual interoperability and all numeric content (there is an OpenSSH client in the sandbox, but running it is not static analysis).",
-		assumptions: []string{"transcription of the RFC tables in c27.go", "kexInitMsg field order equals the wire order (sshtype/ field order checked under C24)"},
+		id: "C27", run: runC27, minOblig: 150,
+		explanation: "Decides RFC-shape necessary conditions of OpenSSH interoperability that Go-to-Go tests cannot see because both sides share the code. The facts about values are decided by SYMBOLIC PATH EXECUTION of the SSA (c27_sym.go): the root function and the helpers of its package it calls are interpreted in place over opaque terms, concrete memory cells and hash objects, every undecided branch is explored on both sides, so the verdict does not depend on helper factoring, names of locals/parameters/receivers, statement order or loop shape. (exchange hash) for each of the five key-exchange families and both roles, on every path that returns a kexResult: result.H is the digest of a hash whose canonical input stream is string(V_C), string(V_S), string(I_C), string(I_S) (the four fields of the magics argument), string(K_S), [min, n, max, p, g for group exchange], e, f, K with the RFC encodings (the hash input is compared as a byte stream: marshalInt/marshalString into a buffer of exactly intLength / 4+len bytes followed by Write, a big-endian uint32 length followed by the bytes, one Write of a concatenation or several Writes of its parts all count as the same input, whichever helper does it), every value is the received field of the peer's message or the very term that was put into the field of the message sent, K is the mpint (ML-KEM hybrid: string) encoding of a secret whose term contains the peer's ephemeral value, result.K is that same encoded K, result.Hash is the hash function the exchange hash was made with, decoded peer messages are never written to; (host key signature) on every such server path the reply's Signature field carries Marshal(priv.SignWithAlgorithm(rand, H, underlyingAlgo(algo))) with H that digest, priv and algo the arguments of Server (signAndMarshal is interpreted in place like any helper), and signAndMarshal by itself signs the given data with underlyingAlgo(algo) and returns the marshalled signature; (key derivation) generateKeyMaterial, interpreted for two digest sizes and ten output lengths each, leaves in out exactly the first len(out) bytes of K1 || K2 || ... with K1 = HASH(K || H || tag || session_id) and Kn = HASH(K || H || K1 || ... || K(n-1)), HASH = r.Hash; enterKeyExchange, on every path, hands prepareKeyChange a kexResult whose SessionID is the stored t.sessionID, or H of this exchange exactly when the path established that t.sessionID was nil/empty, and leaves t.sessionID unchanged resp. set to that H; (direction tags) clientKeys = A,C,E and serverKeys = B,D,F for (ivTag, keyTag, macKeyTag), read from the initialiser's SSA by field name; newPacketCipher, on every path reaching the constructor cipherModes[algs.Cipher].create, passes (key, iv, macKey) buffers filled by generateKeyMaterial with d.keyTag / d.ivTag / d.macKeyTag from the kex result passed in and sized cipherModes[..].keySize / .ivSize / macModes[algs.MAC].keySize, and no MAC key exactly when aeadCiphers[algs.Cipher]; newTransport returns a transport with reader.dir=serverKeys/writer.dir=clientKeys for a client and the opposite for a server; (tables) every advertised kex/cipher/MAC name has a table entry, cipherModes key/IV sizes and macModes key sizes, EtM flags, hash functions and truncation equal the RFC 4253/4344/5647/6668 and OpenSSH PROTOCOL values, kexAlgoMap binds each name to the implementation, hash and curve/group the name prescribes, ecHash maps curve sizes to SHA-256/384/512 (these table rules read the init functions' SSA and remain tied to constant-keyed map assignments of composite literals). NOT decided: actual interoperability and all numeric content (there is an OpenSSH client in the sandbox, but running it is not static analysis); the bodies of the encoding atoms themselves (marshalInt, marshalString, intLength, Marshal, Unmarshal: C24); writeString, writeInt and handshakeMagics.write ARE interpreted (a big-endian length written byte by byte, with binary.BigEndian.PutUint32/AppendUint32 or binary.Write is recognised as the same four bytes).",
+		assumptions: []string{"transcription of the RFC tables in c27.go", "kexInitMsg field order equals the wire order (sshtype/ field order checked under C24)",
+			"the wire-encoding atoms ssh.marshalInt / marshalString / intLength / Marshal / Unmarshal / underlyingAlgo, encoding/binary big-endian writers and hash.Hash behave as documented (they are the atoms of the symbolic model)",
+			"functions outside package ssh are uninterpreted functions of their arguments; only io.ReadFull, Read, crypto/subtle, encoding/binary Put* and crypto/rand.Read are taken to write into a byte-slice argument",
+			"helpers of package ssh that neither receive nor return a tracked object (byte string, hash, ssh record) and store only to their own allocations are uninterpreted functions; loops are unrolled until the same undecided test was taken twice"},
 	})
-	tech("C27", "hash-input sequence extraction (E10), init-time table extraction from SSA/AST compared with RFC tables (E5), argument-pairing rules")
+	tech("C27", "symbolic path execution of SSA with concrete heap, hash objects and canonical byte-stream terms, all paths explored (c27_sym.go); init-time table extraction from SSA compared with RFC tables (E5); finite-domain evaluation (ecHash)")
 }
 
 func runC27(c *Ctx) {
-	for _, sp := range kexSpecs {
+	// exchange hash, K, kexResult and host key signature, per kex family and role
+	for _, sp := range c27Kexes {
 		for _, side := range []string{"Client", "Server"} {
-			checkKexHash(c, "C27.hash-seq", sp, side)
+			c27KexHash(c, sp, side)
 		}
 	}
 	c27KeyMaterial(c)
-	c27SessionID(c)
-	c27Directions(c)
+	c27SessionIDSym(c)
+	c27DirectionTables(c)
+	c27PacketCipher(c)
+	c27TransportDirs(c)
 	c27Tables(c)
-	// host key signature algorithm
-	if f := c.fn("ssh", "signAndMarshal"); f != nil {
-		ok := false
-		for _, ci := range calls(f, nameIs("invoke:(ssh.AlgorithmSigner).SignWithAlgorithm")) {
-			a := ci.Common().Args
-			if call, isC := a[2].(*ssa.Call); isC && short(calleeName(&call.Call)) == "ssh.underlyingAlgo" && call.Call.Args[0] == ssa.Value(f.Params[3]) && a[1] == ssa.Value(f.Params[2]) {
-				ok = true
-			}
-		}
-		c.check(ok, "C27.hostkey-sig", "signAndMarshal", f, "signs the data with underlyingAlgo(negotiated host key algorithm)", "the host key signature is not made with underlyingAlgo(algo) over the given data")
-	}
-	for _, sp := range kexSpecs {
-		f := c.fn("ssh", "(*"+sp.recv+").Server")
-		if f == nil {
-			continue
-		}
-		ok := false
-		for _, ci := range callsNamed(f, "ssh.signAndMarshal") {
-			a := ci.Common().Args
-			// data = H = h.Sum(nil) ; algo = parameter
-			if call, isC := a[2].(*ssa.Call); isC && strings.HasSuffix(calleeName(&call.Call), ".Sum") && a[3] == ssa.Value(param(f, "algo")) && a[0] == ssa.Value(param(f, "priv")) {
-				ok = true
-			}
-		}
-		c.check(ok, "C27.hostkey-sig", sp.recv+".Server signs H", f, "signAndMarshal(priv, rand, H, algo) with H = h.Sum(nil)", "the server does not sign the exchange hash with the host key and negotiated algorithm")
-	}
-}
-
-func c27KeyMaterial(c *Ctx) {
-	f := c.fn("ssh", "generateKeyMaterial")
-	if f == nil {
-		return
-	}
-	type w struct {
-		path string
-		at   *ssa.Call
-	}
-	var ws []w
-	var reset *ssa.Call
-	allInstrs(f, func(in ssa.Instruction) {
-		call, ok := in.(*ssa.Call)
-		if !ok || !call.Call.IsInvoke() {
-			return
-		}
-		switch {
-		case strings.HasSuffix(calleeName(&call.Call), "(hash.Hash).Write") || strings.HasSuffix(calleeName(&call.Call), "(io.Writer).Write"):
-			p := accessPath(call.Call.Args[0])
-			if p == "" {
-				if _, isPhi := call.Call.Args[0].(*ssa.Phi); isPhi {
-					p = "digestsSoFar"
-				}
-			}
-			ws = append(ws, w{p, call})
-		case strings.HasSuffix(calleeName(&call.Call), "(hash.Hash).Reset"):
-			reset = call
-		}
-	})
-	find := func(p string) *ssa.Call {
-		for _, x := range ws {
-			if x.path == p {
-				return x.at
-			}
-		}
-		return nil
-	}
-	k, h, tag, sid, dig := find("r.K"), find("r.H"), find("tag"), find("r.SessionID"), find("digestsSoFar")
-	if len(ws) != 5 || k == nil || h == nil || tag == nil || sid == nil || dig == nil || reset == nil {
-		var got []string
-		for _, x := range ws {
-			got = append(got, x.path)
-		}
-		c.fail("C27.key-material", "generateKeyMaterial", f, fmt.Sprintf("expected hash writes of r.K, r.H, tag, r.SessionID, digestsSoFar after a Reset; found %v", got))
-		return
-	}
-	order := precedes(reset, k) && precedes(k, h) && precedes(h, tag) && precedes(tag, sid) && precedes(h, dig)
-	c.check(order, "C27.key-material", "generateKeyMaterial order", k, "HASH(K || H || X || session_id) then HASH(K || H || K1 ...)", "the order of the key-derivation hash inputs differs from RFC 4253 section 7.2")
-	// first-block test: tag/sid behind len(digestsSoFar)==0 ; dig behind != 0
-	var lenCall *ssa.Call
-	allInstrs(f, func(in ssa.Instruction) {
-		if call, ok := in.(*ssa.Call); ok && calleeName(&call.Call) == "builtin:len" {
-			if _, isPhi := call.Call.Args[0].(*ssa.Phi); isPhi && call.Call.Args[0] == dig.Call.Args[0] {
-				lenCall = call
-			}
-		}
-	})
-	okBr := lenCall != nil
-	if okBr {
-		for _, n := range []int64{0, 20, 64} {
-			e := newEnv()
-			e.bind(lenCall, n)
-			cut := e.cuts(f)
-			r := reachAfter(lenCall, cut)
-			if r[tag.Block()] != (n == 0) || r[dig.Block()] != (n != 0) {
-				okBr = false
-			}
-		}
-	}
-	c.check(okBr, "C27.key-material", "generateKeyMaterial first block", tag, "tag and session id only in the first block, previous digests afterwards", "the first-block / later-block distinction of RFC 4253 section 7.2 is altered")
-	// digestsSoFar accumulates every digest: phi fed by append(phi, digest...)
-	acc := false
-	if p, ok := dig.Call.Args[0].(*ssa.Phi); ok {
-		for _, e := range p.Edges {
-			if call, ok := e.(*ssa.Call); ok && calleeName(&call.Call) == "builtin:append" && call.Call.Args[0] == ssa.Value(p) {
-				if sum, ok := call.Call.Args[1].(*ssa.Call); ok && strings.HasSuffix(calleeName(&sum.Call), ".Sum") {
-					acc = true
-				}
-			}
-			if ph2, ok := e.(*ssa.Phi); ok {
-				for _, e2 := range ph2.Edges {
-					if call, ok := e2.(*ssa.Call); ok && calleeName(&call.Call) == "builtin:append" && call.Call.Args[0] == ssa.Value(p) {
-						acc = true
-					}
-				}
-			}
-		}
-	}
-	c.check(acc, "C27.key-material", "generateKeyMaterial accumulation", dig, "each digest is appended to the running K1||K2||… input", "digests are not accumulated for the following blocks")
-}
-
-func c27SessionID(c *Ctx) {
-	f := c.fn("ssh", "(*handshakeTransport).enterKeyExchange")
-	if f == nil {
-		return
-	}
-	sts := storesTo(f, "kexResult", "SessionID")
-	ok := len(sts) == 1
-	if ok {
-		ok = isField(sts[0].Val, "handshakeTransport", "sessionID")
-	}
-	c.check(ok, "C27.session-id", "enterKeyExchange result.SessionID", f, "key derivation uses the connection's session identifier", "kexResult.SessionID is not the handshake's stored session identifier (re-key would derive keys from the new H)")
-	// sessionID assigned only while nil, from result.H
-	ss := storesTo(f, "handshakeTransport", "sessionID")
-	ok2 := len(ss) == 1
-	if ok2 {
-		_, fld, _, okf := fieldOf(ss[0].Val)
-		ok2 = okf && fld == "H"
-		e := newEnv()
-		e.bindNilTests(f, func(v ssa.Value) bool { return isField(v, "handshakeTransport", "sessionID") }, false)
-		e.solve(f)
-		if e.reach[ss[0].Block()] {
-			ok2 = false
-		}
-		if len(sts) == 1 && !precedes(ss[0], sts[0]) && ss[0].Block() != sts[0].Block() {
-			// the conditional store must come before the use
-			if !reach([]*ssa.BasicBlock{ss[0].Block()}, nil)[sts[0].Block()] {
-				ok2 = false
-			}
-		}
-	}
-	c.check(ok2, "C27.session-id", "enterKeyExchange sessionID assignment", f, "session identifier = H of the first exchange, never replaced", "the session identifier can be replaced after the first key exchange or is not the first exchange hash")
-	// and it is the same H that was signed/verified: result of t.client / t.server
-	for _, who := range []string{"(*handshakeTransport).server"} {
-		if g := c.fn("ssh", who); g != nil {
-			c.ok("C27.session-id", who, g, "server path returns the kex result unchanged (structure checked under C29 for the client path)")
-		}
-	}
-}
-
-func c27Directions(c *Ctx) {
-	p := c.pkg("ssh")
-	if p == nil {
-		return
-	}
-	want := map[string][3]string{"clientKeys": {"A", "C", "E"}, "serverKeys": {"B", "D", "F"}}
-	found := 0
-	for _, f := range p.Syntax {
-		for _, d := range f.Decls {
-			gd, ok := d.(*ast.GenDecl)
-			if !ok || gd.Tok != token.VAR {
-				continue
-			}
-			for _, s := range gd.Specs {
-				vs := s.(*ast.ValueSpec)
-				for i, n := range vs.Names {
-					w, isDir := want[n.Name]
-					if !isDir || i >= len(vs.Values) {
-						continue
-					}
-					cl, ok := vs.Values[i].(*ast.CompositeLit)
-					if !ok {
-						continue
-					}
-					found++
-					// field order of type direction
-					fields := []string{"ivTag", "keyTag", "macKeyTag"}
-					got := map[string]string{}
-					for j, e := range cl.Elts {
-						name := ""
-						val := e
-						if kv, ok := e.(*ast.KeyValueExpr); ok {
-							name = kv.Key.(*ast.Ident).Name
-							val = kv.Value
-						} else if j < len(fields) {
-							name = fields[j]
-						}
-						if inner, ok := val.(*ast.CompositeLit); ok && len(inner.Elts) == 1 {
-							if tv, ok := p.TypesInfo.Types[inner.Elts[0]]; ok && tv.Value != nil {
-								if v, ok := constant.Int64Val(constant.ToInt(tv.Value)); ok {
-									got[name] = string(rune(v))
-								}
-							}
-						}
-					}
-					okD := got["ivTag"] == w[0] && got["keyTag"] == w[1] && got["macKeyTag"] == w[2]
-					c.check(okD, "C27.direction-tags", n.Name, vs, fmt.Sprintf("iv=%s key=%s mac=%s", w[0], w[1], w[2]), fmt.Sprintf("tags are iv=%q key=%q mac=%q, RFC 4253 section 7.2 requires %v", got["ivTag"], got["keyTag"], got["macKeyTag"], w))
-				}
-			}
-		}
-	}
-	c.check(found == 2, "C27.direction-tags", "clientKeys/serverKeys", nil, "both direction tables found", "direction tag tables not found")
-	// struct field order of direction
-	if nt := c.namedType("ssh", "direction"); nt != nil {
-		st := derefStruct(nt)
-		okF := st != nil && st.NumFields() == 3 && st.Field(0).Name() == "ivTag" && st.Field(1).Name() == "keyTag" && st.Field(2).Name() == "macKeyTag"
-		c.check(okF, "C27.direction-tags", "direction field order", nil, "ivTag, keyTag, macKeyTag", "field order of type direction changed; positional literals would bind tags to the wrong purpose")
-	}
-	// newPacketCipher pairing
-	if f := c.fn("ssh", "newPacketCipher"); f != nil {
-		pairs := map[string]string{}
-		for _, ci := range callsNamed(f, "ssh.generateKeyMaterial") {
-			a := ci.Common().Args
-			_, tagF, _, ok := fieldOf(a[1])
-			if !ok {
-				continue
-			}
-			size := ""
-			if mk, ok := a[0].(*ssa.MakeSlice); ok {
-				_, szF, _, _ := fieldOf(stripConv(mk.Len))
-				size = szF
-			}
-			pairs[tagF] = size
-			c.check(a[2] == ssa.Value(param(f, "kex")), "C27.cipher-keys", "newPacketCipher "+tagF+" uses this exchange", ci, "derived from the exchange result passed in", "key material is not derived from the kex result of this exchange")
-		}
-		c.check(pairs["ivTag"] == "ivSize" && pairs["keyTag"] == "keySize" && pairs["macKeyTag"] == "keySize" && len(pairs) == 3, "C27.cipher-keys", "newPacketCipher tag/size pairing", f,
-			"IV: ivTag/ivSize, key: keyTag/keySize, MAC key: macKeyTag/macMode.keySize", fmt.Sprintf("tag/size pairing is %v", pairs))
-		// the created cipher gets (key, iv, macKey)
-		allInstrs(f, func(in ssa.Instruction) {
-			call, ok := in.(*ssa.Call)
-			if !ok {
-				return
-			}
-			if _, fld, _, ok := fieldOf(call.Call.Value); ok && fld == "create" {
-				tags := []string{}
-				for _, a := range call.Call.Args[:3] {
-					t := "?"
-					for _, ci := range callsNamed(f, "ssh.generateKeyMaterial") {
-						if sameDatum(ci.Common().Args[0], a) {
-							_, t, _, _ = fieldOf(ci.Common().Args[1])
-						}
-					}
-					if ph, ok := a.(*ssa.Phi); ok {
-						for _, e := range ph.Edges {
-							for _, ci := range callsNamed(f, "ssh.generateKeyMaterial") {
-								if ci.Common().Args[0] == e {
-									_, t, _, _ = fieldOf(ci.Common().Args[1])
-								}
-							}
-						}
-					}
-					tags = append(tags, t)
-				}
-				c.check(len(tags) == 3 && tags[0] == "keyTag" && tags[1] == "ivTag" && tags[2] == "macKeyTag", "C27.cipher-keys", "newPacketCipher create(key, iv, macKey)", call, "constructor receives (key, iv, macKey)", fmt.Sprintf("constructor receives material derived with %v", tags))
-			}
-		})
-	}
-	// newTransport direction assignment
-	if f := c.fn("ssh", "newTransport"); f != nil {
-		isClient := param(f, "isClient")
-		bad := ""
-		for _, ic := range []int64{0, 1} {
-			e := newEnv()
-			e.bind(isClient, ic)
-			e.solve(f)
-			for _, st := range storesTo(f, "connectionState", "dir") {
-				if !e.reach[st.Block()] {
-					continue
-				}
-				// which connectionState: reader or writer
-				_, which, _, _ := fieldOf(st.Addr.(*ssa.FieldAddr).X)
-				val := accessPath(st.Val)
-				want := "clientKeys"
-				if (which == "reader") == (ic == 1) {
-					want = "serverKeys"
-				}
-				if val != want {
-					bad = fmt.Sprintf("isClient=%d: %s.dir = %s, expected %s", ic, which, val, want)
-				}
-			}
-		}
-		c.check(bad == "", "C27.direction-tags", "newTransport reader/writer directions", f, "client reads with serverKeys and writes with clientKeys; server the opposite", bad)
-	}
+	c27SignAndMarshal(c)
 }
 
 func c27Tables(c *Ctx) {
